@@ -34,7 +34,7 @@ LEVEL_NOTE = ('SIGN CONVENTION (of the code, not fixed by the property statement
               'and the empty mask give 0 (the code selects with the mask). Unproven clauses: |Z| <= 1 unnormalised and orthonormality for 20 < n <= 40 only in the thorough tier, for n > 40 not at all '
               '(sampled by the oracle); the float sqrt/ceil row search of zernike_index beyond the sampled range of j.')
 TECHNIQUE = 'Lean 4 proof (omega/induction, Mathlib integrals, decide +kernel exact tables) over translator-regenerated formulas + hand model with differential correspondence'
-GEN = ['ZernikeR', 'Mesh', 'Util', 'UtilWindow', 'Helper', 'Helper20', 'Hex', 'Extent', 'FieldAccum', 'FieldDispatch', 'FieldIdx', 'FieldMerge']      # every Gen module the model, driver and Props import (transitively, through Model/Geometry and Model/Field)
+GEN = ['ZernikeR', 'Mesh', 'Util', 'UtilWindow', 'UtilCentroid', 'Helper', 'Helper20', 'Hex', 'Extent', 'FieldAccum', 'FieldDispatch', 'FieldIdx', 'FieldMerge']      # every Gen module the model, driver and Props import (transitively, through Model/Geometry and Model/Field)
 OPS = ['C11']
 RULE = ('cases: every Noll index 1..861 (all 41 rows n <= 40) against zernike_index; every valid (n, m) with n <= 40 for the radial '
         'coefficients (exact rational evaluation at dyadic nodes); modes j <= 231 (some to 861) on dyadic (rho, theta) nodes with both '
